@@ -352,7 +352,11 @@ def run_traceback_case(r, pos, path, nl, res):
             if found is None:
                 last = k == len(spec["chain"]) - 1
                 fid = None
-                if not last and pos in ("block", "anon-block") and k == 0:
+                if not last and pos in ("block", "anon-block") and k == 0 and any(
+                        g[0] == ids[uri] and g[2] == "render_body" for g in got_chain[idx:]):
+                    # recogniser: the body frame that invokes the block is there, under the right template and function,
+                    # but carries the line of a neighbouring construct (no source line is recorded for the invocation);
+                    # a missing frame, or one under another template, is still a VIOLATION
                     fid = "C12/block-invocation-frame-line"
                 kind = "innermost-frame-line" if last else "call-site-frame-line"
                 res.violate(
